@@ -25,8 +25,9 @@ import (
 )
 
 const (
-	poolPeers = 6 // wire identities shared by all channels of a run
-	maxChans  = 6
+	poolPeers   = 6  // wire identities shared by all channels of a run
+	maxChans    = 12 // (more than 6 only in the many-channels runs of C11)
+	rankBuckets = 6
 	// run modes (Config "mode")
 	modeCrash    = 0 // C10: enumerate a crash after every write boundary
 	modeWriteErr = 1 // C10 relaxed: listed write boundaries fail
@@ -326,6 +327,9 @@ type world struct {
 	ctx   context.Context
 	// doneCtx>0: every doneCtx-th operation is called with a context that is already done
 	doneCtx int
+	// iterPM>0 (C11): per mille of the steps around which a RestoreAll iteration is left open
+	iterPM int
+	onPrim func(c *chn)
 
 	inner   sortedkv.Database
 	fdb     *FaultDB
@@ -369,6 +373,7 @@ func newWorld(sc *kernel.Scenario, res *kernel.Result, trace, check bool) *world
 		w.store = storeMem
 	}
 	w.doneCtx = int(sc.Cfg("done_ctx", 0))
+	w.iterPM = int(sc.Cfg("iter_pm", 0))
 	w.inner, w.cleanup = newLiveStore(w.store)
 	w.fdb = &FaultDB{inner: w.inner, failAt: map[int]struct{}{}}
 	if w.mode == modeWriteErr {
@@ -407,7 +412,7 @@ func newWorld(sc *kernel.Scenario, res *kernel.Result, trace, check bool) *world
 			c.app = gen.AppNone
 		}
 		c.accs = gen.Pool(c.n)
-		rank := int(chanCfg(sc, i, "rank", int64(i))) % maxChans
+		rank := int(chanCfg(sc, i, "rank", int64(i))) % rankBuckets
 		if rank < 0 {
 			rank = 0
 		}
@@ -416,7 +421,7 @@ func newWorld(sc *kernel.Scenario, res *kernel.Result, trace, check bool) *world
 		for k := uint64(0); ; k++ {
 			c.params = gen.Params(c.accs, uint64(chanCfg(sc, i, "challenge", 60)), c.app, base+k, !virtual, virtual)
 			c.id = c.params.ID()
-			if int(c.id[0])*maxChans/256 == rank || k > 5000 {
+			if int(c.id[0])*rankBuckets/256 == rank || k > 5000 {
 				break
 			}
 		}
@@ -672,6 +677,9 @@ func (w *world) prim(c *chn, op string, st *kernel.Step) {
 	if w.res.Violation != nil {
 		return
 	}
+	if w.onPrim != nil {
+		defer w.onPrim(c)
+	}
 	if c.removed || c.dead {
 		w.logf("ch%d %s skipped (channel %s)", c.i, op, map[bool]string{true: "removed", false: "abandoned after a failed write"}[c.removed])
 		return
@@ -926,6 +934,135 @@ func (w *world) do(st *kernel.Step) {
 		sub("set-withdrawn", "failw", st.Int("failw"))
 	default:
 		w.prim(c, st.Op, st)
+	}
+}
+
+// interleaved runs one step of the history while a RestoreAll iteration is
+// under way: the iterator is opened, a drawn number of channels is taken from
+// it, the step runs, the rest is taken. Operations on one channel must not
+// change what is restored for another: every channel that was live when the
+// iterator was opened and still is must come out exactly once, with the data
+// it had at the opening or has now (the step's own channel: with the data it
+// had after any operation of the step); nothing comes out twice; the
+// iteration ends without an error. Nothing is judged when a write failure
+// has left a half-removed channel behind.
+func (w *world) interleaved(st *kernel.Step) {
+	anyDead := func() bool {
+		for _, y := range w.chs {
+			if y.dead {
+				return true
+			}
+		}
+		return false
+	}
+	if anyDead() || !w.check {
+		w.do(st)
+		return
+	}
+	okRefs, liveAtOpen := map[channel.ID][]*snap{}, map[channel.ID]bool{}
+	nOpen := 0
+	for _, y := range w.chs {
+		if y.live() {
+			okRefs[y.id], liveAtOpen[y.id] = []*snap{y.ref}, true
+			nOpen++
+		}
+	}
+	var it persistence.ChannelIterator
+	if err, pan := guard(func() (e error) { it, e = w.pr.RestoreAll(); return }); pan != nil || err != nil || it == nil {
+		w.fail("C11.restoreall-error", "RestoreAll could not be opened before %s: %v %v", st.Op, err, pan)
+		return
+	}
+	seen := map[channel.ID]*snap{}
+	var order []channel.ID
+	exhausted, dup := false, false
+	take := func(max int) (pan any) {
+		defer func() {
+			if r := recover(); r != nil {
+				pan = r
+			}
+		}()
+		for n := 0; n < max && !exhausted; n++ {
+			if !it.Next(w.ctx) {
+				exhausted = true
+				break
+			}
+			ch := it.Channel()
+			sn, p := w.restoredSnap(ch)
+			if p != nil {
+				return p
+			}
+			id := ch.ID()
+			if _, ok := seen[id]; ok {
+				dup = true
+			}
+			seen[id] = sn
+			order = append(order, id)
+		}
+		return nil
+	}
+	k := int(kernel.Derive(uint64(w.step), "iter-take", int64(nOpen)) % uint64(nOpen+1))
+	pan := take(k)
+	w.onPrim = func(c *chn) {
+		if c.ref != nil {
+			okRefs[c.id] = append(okRefs[c.id], c.ref)
+		}
+	}
+	w.do(st)
+	w.onPrim = nil
+	if pan == nil {
+		pan = take(64)
+	}
+	var cerr error
+	if _, p := guard(func() error { cerr = it.Close(); return nil }); p != nil && pan == nil {
+		pan = p
+	}
+	w.res.Count("fault.restoreall-iteration-interleaved-with-step", 1)
+	w.res.Evals++
+	if w.res.Violation != nil || anyDead() {
+		return
+	}
+	what := fmt.Sprintf("a RestoreAll iteration was opened over %d live channels, %d channels were taken, then %s ran on channel %d, then the rest was taken", nOpen, k, st.Op, st.Int("ch"))
+	switch {
+	case pan != nil:
+		w.fail("C11.panic@restore", "%s: panic: %v", what, pan)
+		return
+	case dup:
+		w.fail("C11.restoreall-interleaved@duplicate", "%s: a channel came out twice", what)
+		return
+	case cerr != nil:
+		w.fail("C11.restoreall-interleaved@error", "%s: the iteration ended with an error: %v (%d channels came out)", what, cerr, len(order))
+		return
+	}
+	for _, id := range order {
+		y := w.byID[id]
+		if y == nil {
+			w.fail("C11.restoreall-interleaved@unknown-channel", "%s: a channel came out that was never created", what)
+			return
+		}
+		got, ok := seen[id], false
+		for _, r := range okRefs[id] {
+			ok = ok || (got.stale == "" && got.f == r.f)
+		}
+		if !ok {
+			ref := y.ref
+			if ref == nil && len(okRefs[id]) > 0 {
+				ref = okRefs[id][0]
+			}
+			d := ""
+			if ref != nil {
+				d = diffNames(got, ref)
+			}
+			w.fail("C11.restoreall-interleaved@mismatch", "%s: channel %d came out with data it had neither when the iterator was opened nor after any operation since (differs from its state in [%s]) %s", what, y.i, d, got.stale)
+			return
+		}
+	}
+	for _, y := range w.chs {
+		if liveAtOpen[y.id] && y.live() {
+			if _, ok := seen[y.id]; !ok {
+				w.fail("C11.restoreall-interleaved@missing", "%s: live channel %d did not come out (%d of %d did)", what, y.i, len(order), nOpen)
+				return
+			}
+		}
 	}
 }
 
